@@ -420,27 +420,28 @@ def consult(ctx, p):
     # per case {position in the book, policy flag, the book offers a move}: what start_searching does (effects under the
     # valuation): the sampler of the policy is asked with the key and the position; its move is answered when there is one;
     # otherwise the search runs; never both, never neither
-    from rules.cases import effects_under as _eus
+    from rules.cases import effects_under as _eus, effects_all as _eall
     RND, BST = 'uci.polyglot.get_random_move(key,uci.position)', 'uci.polyglot.get_best_move(key,uci.position)'
     bad_s = None
     for c_ in (0, 1):
         for fl_ in (0, 1):
             for ans_ in (0, 1):
                 val = {'uci.polyglot.contains(key)': c_, 'uci.polyglot_sample_random_move': fl_, RND: 77 if ans_ else 0, BST: 88 if ans_ else 0}
-                eff = _eus(f, kids(f.body), val, keep=('key',))
-                outs_ = [e_ for e_ in eff if '"bestmove ' in e_]
-                gos_ = [e_ for e_ in eff if e_.endswith('.go()') or e_.endswith('go()')]
-                rest_ = [e_ for e_ in eff if e_ not in outs_ and e_ not in gos_ and not re.fullmatch(r'\(\w+=\d+\)', e_) and e_ != 'return ']
-                if rest_:
-                    raise AnalysisBroken('C19: start_searching does `%s`, which the rule does not know' % rest_[0][:120])
-                if c_ and ans_:
-                    want_mv = 77 if fl_ else 88
-                    ok_ = len(outs_) == 1 and not gos_ and 'uci.position.uci(%d)' % want_mv in outs_[0]
-                else:
-                    ok_ = not outs_ and len(gos_) == 1
-                if not ok_ and bad_s is None:
-                    bad_s = 'in the book=%s, random policy=%s, a move offered=%s: answers %s, searches %d time(s)' % (
-                        bool(c_), bool(fl_), bool(ans_), [o_[-40:] for o_ in outs_], len(gos_))
+                for val_, flags_, eff in _eall(f, kids(f.body), val, keep=('key',)):
+                    outs_ = [e_ for e_ in eff if '"bestmove ' in e_]
+                    gos_ = [e_ for e_ in eff if e_.endswith('.go()') or e_.endswith('go()')]
+                    rest_ = [e_ for e_ in eff if e_ not in outs_ and e_ not in gos_ and not re.fullmatch(r'\(\w+=\d+\)', e_) and e_ != 'return ' and
+                             not any(re.fullmatch(r'\(%s=\d+\)' % re.escape(fl__), e_) for fl__ in flags_)]
+                    if rest_:
+                        raise AnalysisBroken('C19: start_searching does `%s`, which the rule does not know' % rest_[0][:120])
+                    if c_ and ans_:
+                        want_mv = 77 if fl_ else 88
+                        ok_ = len(outs_) == 1 and not gos_ and 'uci.position.uci(%d)' % want_mv in outs_[0]
+                    else:
+                        ok_ = not outs_ and len(gos_) == 1
+                    if not ok_ and bad_s is None:
+                        bad_s = 'in the book=%s, random policy=%s, a move offered=%s%s: answers %s, searches %d time(s)' % (
+                            bool(c_), bool(fl_), bool(ans_), ''.join(', %s=%s' % kv for kv in sorted(flags_.items())), [o_[-40:] for o_ in outs_], len(gos_))
     okc = True
     ctx.ob('C19.R5.probe', 'start_searching', bool(okk and okc),
            'the book is probed with the key of the current position', site=f.loc())
